@@ -169,6 +169,8 @@ for _p in ("C01", "C02"):
 for _p in ("C20", "C22"):
     _aug(_p, " + RP: every selection MC_Link checks (pairs, thorough triples, of 9 files x debug) assembled and linked by the real crate in every order and validated by TLC (MC_LinkRP)",
          " RP: MC_LinkRP prints each selection; the harness assembles the files and links the set in every order and bracketing; TV_Asm validates every step.")
+_aug("C03", " + RP: each of the 15 360 renderings goes through the real parser, which must read what Grammar!ParseProgram reads (lc3v replay parse)",
+     " RP: the renderings MC_Grammar reads back are printed by TLC and given to the real parser; TV_Parse requires the real parser to read exactly what the grammar of the specification reads.")
 _aug("C19", " + RP: every cut file of up to two chunks enumerated by TLC through the real binary reader (lc3v replay fmt)",
      " RP: the RP configuration of MC_ObjFormat prints every file of up to two chunks cut at every length (3 960); each goes through the real binary reader and TV_Fmt compares verdict and object with BinRead.")
 _aug("C13", " + RP: TLC (MC_RunRP) prints every maximal behaviour with up to 2/3 free calls; each is replayed on the real simulator and validated by TLC",
